@@ -10,4 +10,7 @@ open Strengths.Gen.PyNumeric
 limited number of digits (the model computes its values exactly and its texts through `repr`) -/
 theorem text_array_rw_full_precision : fullPrecision inv_text_array_rw = true := by decide +kernel
 
+/-- `text_array_rw.py` takes no maximum / minimum / absolute value and swallows no exception: nothing it computes is clamped -/
+theorem text_array_rw_no_clamping : clamp_text_array_rw = [] := by decide +kernel
+
 end Strengths.PyNumeric
